@@ -155,7 +155,7 @@ func main() {
 
 	runCanaries()
 
-	n := run.Pick(2000, 60000)
+	n := run.Pick(8000, 60000)
 	deadline := time.Now().Add(time.Duration(run.Pick(20, 90)) * time.Minute)
 	var skipped atomic.Int64
 	evid.Parallel(n, 0, func(i int) {
